@@ -62,6 +62,25 @@ func (propC06) Gen(seed uint64, tier string, idx int) any {
 		p.Img.W, p.Img.H = 16*r.Range(16, 40)-r.Intn(2), 16*r.Range(16, 40)-r.Intn(2)
 		p.Opt.Pass, p.Opt.TargetSize, p.Opt.TargetPSNR = -1, 0, 0
 	}
+	if r.Pct(8) {
+		// rate control with room to converge: several segments, SNS on, many passes, a
+		// target around what the picture needs (0.4 .. 6 bits per pixel), so that the
+		// search ends with small quality steps
+		p.Img = GenImgSpec(r, 32, 128, 0)
+		p.Img.Family = r.PickS("noise", "noise", "smooth", "regions", "dgrad", "text")
+		p.Img.Alpha = "opaque"
+		p.Opt = GenLossyOpts(r, 0, false)
+		p.Opt.Preset, p.Opt.QMin, p.Opt.QMax = 0, 0, -1
+		p.Opt.Segments = r.Pick(2, 3, 4, 4)
+		p.Opt.SNSStrength = r.Pick(-1, 25, 50, 80, 100)
+		p.Opt.Pass = r.Pick(2, 3, 4, 6, 6, 8, 10)
+		bpp := r.Pick(4, 8, 12, 16, 24, 32, 48, 60) // tenths of a bit per pixel
+		if r.Pct(25) {
+			p.Opt.TargetPSNR = float32(r.Range(30, 44))
+		} else {
+			p.Opt.TargetSize = p.Img.W*p.Img.H*bpp/80 + r.Intn(50)
+		}
+	}
 	switch p.Img.Type {
 	case "paletted", "nrgba64", "nrgba64sub", "palsub":
 		p.Img.Type = "nrgba"
